@@ -79,6 +79,7 @@ import JdProofs.DiffEmpty
 import JdProofs.DiffEmptySet
 import JdProofs.MergePrecision
 import JdProofs.CliExitCodes
+import JdProofs.OptSites
 
 namespace Jd.Props.C05
 open Jd Jd.Spec
@@ -461,5 +462,14 @@ theorem precision_exit_one_though_equal {x y : UInt64}
   Jd.CliExit.precision_exit_one_though_equal (x := x) (y := y) (R := R) (hset := hset) (hmset := hmset) (hkeys := hkeys) (hfmt := hfmt) (h1 := h1) (h0 := h0) (hren := hren)
 
 end
+
+/-! ### Option plumbing of the Go source = the model's (regenerated table, JdProofs/OptSites.lean)
+
+   Which option list each call inside v2/ and lib/ passes to `hashCode` / `Equals` / `diff` / `ident` / `dispatch` … is
+   regenerated from the Go source on every run (tools/optfacts, 187 sites) and proved equal to the table the model was
+   written against. A dropped or added option argument breaks this, whether or not a generated input reaches it. -/
+
+theorem option_plumbing_as_modelled : Gen.optSites = Jd.OptSites.expected :=
+  Jd.OptSites.option_plumbing_as_modelled
 
 end Jd.Props.C05
